@@ -348,6 +348,23 @@ def read_ndjson(path):
 def validate_trace(module, cfg, trace_path, tag=None, timeout=1100, extra_env=None, extra_java=()):
     """Run a Trace_* spec on one NDJSON file.  The spec must define the POSTCONDITION that
     prints  <<"TRACE", "{accepted: bool, matched: n, len: n}">>.  Returns dict."""
+    # A recorder that died (library crash, uncaught exception) leaves a truncated last line: the complete events are
+    # still validated, the trace counts as rejected at the event that was being written.
+    truncated = False
+    with open(trace_path) as f:
+        lines = f.read().split("\n")
+    while lines and lines[-1].strip() == "":
+        lines.pop()
+    if lines:
+        try:
+            json.loads(lines[-1])
+        except ValueError:
+            truncated = True
+            lines.pop()
+            with open(trace_path, "w") as f:
+                f.write("".join(x + "\n" for x in lines))
+    if truncated and not lines:
+        return {"accepted": False, "matched": 0, "len": 0, "truncated": True, "wall": 0.0, "file": trace_path, "generated": 0}
     env = {"TRACE": trace_path}
     if extra_env:
         env.update(extra_env)
@@ -361,6 +378,9 @@ def validate_trace(module, cfg, trace_path, tag=None, timeout=1100, extra_env=No
     info["wall"] = r.wall
     info["file"] = trace_path
     info["generated"] = r.generated
+    if truncated:
+        info["truncated"] = True
+        info["accepted"] = False   # the recorder died while writing the event after the last complete one
     return info
 
 
